@@ -263,9 +263,9 @@ _start:
  je 1f
  fail 5
 1: mov %r15, %r10
- dec %r10
+ xor $1, %r10
  cmpq absval@GOTPCREL(%rip), %r10
- jb 1f
+ jne 1f
  fail 6
 1: movq func@GOTPCREL(%rip), %rax
  lea func(%rip), %rcx
